@@ -185,6 +185,9 @@ def defect(e):
 
 
 def run(ctx):
+    # reverse-strand parts of a feature are read and written through complement(): the table behind it (seqtypes.py)
+    from .C03 import complement_table_rules
+    complement_table_rules(ctx, "R2")
     s = ctx.src(ANN)
     idx = ClassIndex(ctx, [ANN, COPYABLE])
     members = [m for m in _enum_members(s.cls("Location.Defect")) if m != "NONE"]
@@ -430,6 +433,7 @@ def _enum_members(clsnode):
 
 
 MUTANTS = [
+    Mutant("complement-w-s-swapped", "sequence/seqtypes.py", '"W": "W",', '"W": "S",', "R2.complement-iupac"),
     Mutant("annotation-adopts-set", ANN, "        if features is None:\n            self._features = set()\n        else:\n",
            "        if features is None:\n            self._features = set()\n        elif isinstance(features, set):\n            self._features = features\n        else:\n",
            "R3.copy-owns-state", "Annotation.__copy_create__"),
